@@ -127,9 +127,63 @@ pub fn inspect(tid: i32) -> Result<Option<String>, String> {
         Some(x) => x,
         None => return Ok(None), // "running"
     };
+    if nr == libc::SYS_poll || nr == libc::SYS_read || nr == libc::SYS_write {
+        // The thread waits on pipes itself (a communicate-style exchange).  It is
+        // stuck for good if it waits without timeout and, for every pipe it
+        // waits on, all holders of the other end are blocked for good.
+        let mut waits: Vec<(u64, bool)> = vec![]; // (fd, thread waits to read)
+        if nr == libc::SYS_poll {
+            let timeout = args.get(2).copied().unwrap_or(0) as i32;
+            if timeout >= 0 {
+                return Ok(None);
+            }
+            let ptr = args.first().copied().unwrap_or(0) as *const libc::pollfd;
+            let n = args.get(1).copied().unwrap_or(0) as usize;
+            if ptr.is_null() || n > 16 {
+                return Ok(None);
+            }
+            for i in 0..n {
+                // same address space: the blocked thread's pollfd array is readable
+                let pf = unsafe { std::ptr::read_volatile(ptr.add(i)) };
+                if pf.fd >= 0 {
+                    waits.push((pf.fd as u64, pf.events & libc::POLLIN != 0));
+                }
+            }
+        } else {
+            waits.push((args.first().copied().unwrap_or(0), nr == libc::SYS_read));
+        }
+        if waits.is_empty() {
+            return Ok(None);
+        }
+        let mut all = my_children();
+        all.push(me);
+        let mut trace = vec![format!("harness thread {} is blocked in {} without timeout", tid, if nr == libc::SYS_poll { "poll" } else if nr == libc::SYS_read { "read" } else { "write" })];
+        for (fd, wants_read) in waits {
+            let ino = match pipe_inode(me, fd) {
+                Some(i) => i,
+                None => return Ok(None),
+            };
+            let hs = holders(ino, wants_read, &all);
+            let others: Vec<i32> = hs.iter().map(|h| h.0).filter(|p| *p != me).collect();
+            trace.push(format!("waits on fd {} (pipe:[{}], to {}); other end held by pids {:?}", fd, ino, if wants_read { "read" } else { "write" }, others));
+            if others.is_empty() {
+                // nobody else holds the other end: EOF / EPIPE is imminent, not a deadlock
+                return Ok(None);
+            }
+            for p in others {
+                let mut visiting = BTreeSet::new();
+                if !blocked_for_good(p, me, &all, &mut visiting, &mut trace) {
+                    return Ok(None);
+                }
+            }
+        }
+        let after = std::fs::read_to_string(&path).unwrap_or_default();
+        return Ok(if before == after { Some(trace.join("; ")) } else { None });
+    }
     if nr != libc::SYS_wait4 {
         return Ok(None);
     }
+
     let awaited = args.first().copied().unwrap_or(0) as i32;
     if awaited <= 0 {
         return Ok(None);
@@ -230,7 +284,11 @@ pub fn guard<T>(f: impl FnOnce() -> T) -> (T, Option<String>) {
     let mon = std::thread::spawn(move || {
         let t0 = ip::real_now_ns();
         while !s2.load(SeqCst) {
-            ip::real_sleep_ms(20);
+            // woken at once (unpark) when the guarded call is over
+            std::thread::park_timeout(std::time::Duration::from_millis(20));
+            if s2.load(SeqCst) {
+                return;
+            }
             if (ip::real_now_ns() - t0) / 1_000_000 < 150 {
                 continue;
             }
@@ -248,6 +306,7 @@ pub fn guard<T>(f: impl FnOnce() -> T) -> (T, Option<String>) {
     });
     let r = f();
     stop.store(true, SeqCst);
+    mon.thread().unpark();
     let _ = mon.join();
     let d = found.lock().unwrap().take();
     (r, d)
